@@ -55,6 +55,8 @@ type FnCtx struct {
 	used       map[string]bool
 	entryVals  map[*ssa.Parameter]Val
 	entryTerms []entryTerm
+	quantHeavy     bool
+	entryHeld      string
 	sorts          map[string]string
 	constArrs      map[string]string
 	loopUnkPkgs    []*types.Package
@@ -135,6 +137,7 @@ type State struct {
 	held    string         // ghost: mutex held (Bool term)
 	frames  []frame
 	havocs  []havocRec
+	lastBound string
 	noTypeInv bool
 	inGlobalInv bool
 	selfFn    Val
@@ -263,6 +266,9 @@ func (s *State) rootEpoch(key string) int {
 // no callbacks) -- Go's package-level encapsulation makes those unwritable from there.
 func (s *State) havocCall(reason string, pkgs []*types.Package, funcArg bool) {
 	eng := s.c.eng
+	if s.c.frameOn && !s.c.frameAll && reason != "" {
+		s.oblige("frame", nil, s.c.ordinal(nil, "frame-unknown"), "false", "call with unknown effects inside a function whose assigns clause is not `everything`: "+reason, false)
+	}
 	keep := func(key string) bool {
 		if eng.immutableKey(key) && !eng.immAllowed[s.c.fn] {
 			return true
@@ -390,11 +396,26 @@ func (s *State) refFacts(c comp, term string) {
 	}
 }
 
+var stdSizes = types.SizesFor("gc", "amd64")
+
+// maxCap: no Go slice can hold more elements than fit in the address space.
+func maxCap(t types.Type) string {
+	sl, ok := t.Underlying().(*types.Slice)
+	if !ok {
+		return "9223372036854775807"
+	}
+	sz := stdSizes.Sizeof(sl.Elem())
+	if sz <= 1 {
+		return "9223372036854775807"
+	}
+	return fmt.Sprint(int64(9223372036854775807) / sz)
+}
+
 func sliceFacts(v Val) string {
 	if v.Sl == nil {
 		return "true"
 	}
-	return and(app("<=", v.Sl.Len, v.Sl.Cap), app("<=", v.Sl.Cap, "9223372036854775807"), implies(eq(v.Sl.Base, "0"), and(eq(v.Sl.Len, "0"), eq(v.Sl.Cap, "0"))))
+	return and(app("<=", v.Sl.Cap, maxCap(v.T)), app("<=", v.Sl.Len, v.Sl.Cap), app("<=", v.Sl.Cap, "9223372036854775807"), implies(eq(v.Sl.Base, "0"), and(eq(v.Sl.Len, "0"), eq(v.Sl.Cap, "0"))))
 }
 
 // typeFacts: invariants of a value of type t that hold for every well-typed Go value.
@@ -469,7 +490,25 @@ func (s *State) loadAddr(a *Addr) Val {
 	return v
 }
 
+func (s *State) noteRefLike(key string, c comp, twoLevel bool) {
+	if c.Part == "b" || (c.Part == "" && (kindOf(c.T) == kPtr || kindOf(c.T) == kMap)) {
+		if twoLevel {
+			s.c.eng.refKeys2[key] = true
+		} else {
+			s.c.eng.refKeys1[key] = true
+		}
+	}
+}
+
 func (s *State) readComp(a *Addr, c comp) string {
+	switch a.Space {
+	case "fld":
+		s.noteRefLike(s.fldKey(a.Struct, a.Field, c.Suffix), c, false)
+	case "elem":
+		s.noteRefLike(elemKey(a.Elem, a.Path, c.Suffix), c, true)
+	case "cell":
+		s.noteRefLike("cell|"+typeKey(a.T)+c.Suffix, c, false)
+	}
 	switch a.Space {
 	case "fld":
 		key := s.fldKey(a.Struct, a.Field, c.Suffix)
@@ -584,8 +623,40 @@ func (s *State) resolve(a *Addr) *Addr {
 	return a
 }
 
+// heapBoundFacts: every reference stored in the heap arrays touched so far is smaller than the allocation
+// pointer (heap well-formedness), stated before an allocation so that the new object is known to be distinct
+// from everything reachable -- also under quantifiers, where per-load facts do not reach.
+func (s *State) heapBoundFacts() {
+	if s.lastBound == s.alloc {
+		return
+	}
+	s.lastBound = s.alloc
+	keys := make([]string, 0, len(s.heap))
+	for k := range s.heap {
+		if s.c.eng.refKeys1[k] || s.c.eng.refKeys2[k] {
+			keys = append(keys, k)
+		}
+	}
+	sort.Strings(keys)
+	for _, k := range keys {
+		h := s.heap[k]
+		r := fmt.Sprintf("r!%d", s.c.fresh)
+		s.c.fresh++
+		if s.c.eng.refKeys2[k] {
+			i := fmt.Sprintf("i!%d", s.c.fresh)
+			s.c.fresh++
+			s.assume(fmt.Sprintf("(forall ((%s Int) (%s Int)) (! (< (select (select %s %s) %s) %s) :pattern ((select (select %s %s) %s))))", r, i, h, r, i, s.alloc, h, r, i))
+		} else {
+			s.assume(fmt.Sprintf("(forall ((%s Int)) (! (< (select %s %s) %s) :pattern ((select %s %s))))", r, h, r, s.alloc, h, r))
+		}
+	}
+}
+
 // newObject allocates a fresh reference.
 func (s *State) newRef() string {
+	if s.c.quantHeavy {
+		s.heapBoundFacts()
+	}
 	r := s.define("ref", sInt, s.alloc)
 	s.alloc = s.define("alloc", sInt, app("+", s.alloc, "1"))
 	return r
@@ -766,7 +837,7 @@ func (s *State) sliceElemAddr(v Val, idx string) *Addr {
 	et := v.T.Underlying().(*types.Slice).Elem()
 	abs := idx
 	if v.Sl.Off != "0" {
-		abs = s.define("ix", sInt, app("+", v.Sl.Off, idx))
+		abs = s.define("ix", sInt, ixT(v.Sl.Off, idx))
 	}
 	return &Addr{Space: "elem", Ref: v.Sl.Base, Idx: abs, Elem: et, T: et}
 }
